@@ -32,6 +32,12 @@ structure St where
   held : Bool := false
   /-- the checkpoint whose handle that held save will return -/
   heldId : Option Nat := none
+  /-- the held save has written its document and is stopped before its WAL deletions -/
+  heldDel : Bool := false
+  /-- number of the directory the running instance works in (a `fresh` reopen moves to a new one) and, for every
+  handle, the directory of its document -/
+  dir : Nat := 0
+  hdir : List (Nat × Nat) := []
 
 /-- values are printed in hex when short, as length and checksum when long (the 64 KB values of large WAL segments) -/
 def showVal (v : Bytes) : String :=
@@ -57,7 +63,27 @@ def listBlocked (st : St) (hint : List String) : Bool := st.held && hint == ["bl
 
 def stepM (st : St) (a : Ckpt.Act) : Option St :=
   match Ckpt.step st.s a with
-  | some s' => some { st with s := s' }
+  | some s' =>
+    let hdir := match a with
+      | .saveDoc id => (id, st.dir) :: st.hdir
+      | _ => st.hdir
+    some { st with s := s', sp := Ckpt.stepSpec st.s st.sp a, hdir := hdir }
+  | none => none
+
+/-- the directory whose `checkpoints` document the handle of `id` points to -/
+def dirOf (st : St) (id : Nat) : Nat := ((st.hdir.find? (·.1 == id)).map (·.2)).getD 0
+
+/-- the loop at the end of `CheckpointList.Save`: one `destroy` step per checkpoint pending removal -/
+def destroyAll (st : St) : St :=
+  (List.range st.s.pending.length).foldl (fun acc _ => (stepM acc .destroy).getD acc) st
+
+/-- `CheckpointList.Save` on behalf of a checkpoint task: document write + handle, then the WAL deletions -/
+def saveDocM (st : St) (id : Nat) : Option St := (stepM st (.saveDoc id)).map destroyAll
+
+/-- `UpdateRetainedCheckpoints`: `RetainOnly`, then `Save` (document write, then the WAL deletions) -/
+def retainM (st : St) (ids : List Nat) : Option St :=
+  match stepM st (.retain ids) with
+  | some st1 => (stepM st1 .saveList).map destroyAll
   | none => none
 
 def writeOp (st : St) (del : Bool) (k v : Bytes) (hint : List String) : St × String :=
@@ -65,7 +91,7 @@ def writeOp (st : St) (del : Bool) (k v : Bytes) (hint : List String) : St × St
   let rot := hint == ["rot=1"]
   match stepM st (.write del k v rot) with
   | some st' =>
-    ({ st' with sp := Ckpt.stepSpec st.s st.sp (.write del k v rot), flushQ := st'.flushQ + (if rot then 1 else 0) },
+    ({ st' with flushQ := st'.flushQ + (if rot then 1 else 0) },
      if rot then "rot=1" else "rot=0")
   | none => ({ st with bad := true }, "disabled")
 
@@ -80,31 +106,44 @@ def stepList (st : St) (op : List String) : St × String :=
   match op with
   | ["ckpt", id] =>
     match stepM st (.checkpoint (natOr id)) with
-    | some st' => ({ st' with sp := Ckpt.stepSpec st.s st.sp (.checkpoint (natOr id)) }, "captured")
+    | some st' => (st', "captured")
     | none => (st, "disabled")
   | ["cw", id] =>
     match stepM st (.saveWal (natOr id)) with
     | some st' => (st', "ok")
     | none => (st, "none")
   | ["cd", id] =>
-    match stepM st (.saveDoc (natOr id)) with
+    match saveDocM st (natOr id) with
     | some st' => (st', "ok")
     | none => (st, "none")
   | ["retain", ids] =>
-    match stepM st (.retain (parseIds ids)) with
+    match retainM st (parseIds ids) with
     | some st' => (st', "ok")
     | none => (st, "refused")
   | ["hcd", id] =>
     if st.held then
-      match stepM st (.saveDoc (natOr id)) with
+      match saveDocM st (natOr id) with
       | some st' => (st', "ok")
       | none => (st, "none")
     else
-      match stepM st (.saveDoc (natOr id)) with
+      match saveDocM st (natOr id) with
       | some st' => ({ st' with held := true, heldId := some (natOr id) }, "held")
       | none => (st, "none")
+  | ["hretaind", ids] =>
+    if st.held then
+      match retainM st (parseIds ids) with
+      | some st' => (st', "ok")
+      | none => (st, "refused")
+    else
+      match stepM st (.retain (parseIds ids)) with
+      | some st1 =>
+        match stepM st1 .saveList with
+        | some st2 =>
+          if st2.s.pending.isEmpty then (st2, "ok") else ({ st2 with held := true, heldDel := true }, "held")
+        | none => (st, "refused")
+      | none => (st, "refused")
   | ["hretain", ids] =>
-    match stepM st (.retain (parseIds ids)) with
+    match retainM st (parseIds ids) with
     | some st' => if st.held then (st', "ok") else ({ st' with held := true }, "held")
     | none => (st, "refused")
   | _ => (st, "bad-op")
@@ -143,26 +182,40 @@ def step (st : St) (ws : List String) : St × String :=
       | none => ({ st with bad := true }, "unsafe")
     | _ => (st, "bad-hint")
   | ["cw", _] => stepList st op
-  | ["ckpt", _] | ["cd", _] | ["retain", _] | ["hcd", _] | ["hretain", _] =>
+  | ["ckpt", _] | ["cd", _] | ["retain", _] | ["hcd", _] | ["hretain", _] | ["hretaind", _] =>
     if listBlocked st hint then (st, "blocked") else stepList st op
   | ["release"] =>
-    if st.held then ({ st with held := false, heldId := none }, "ok") else (st, "none")
-  | ["reopen", id, _] =>
+    if st.held then
+      let st1 := if st.heldDel then destroyAll st else st
+      ({ st1 with held := false, heldId := none, heldDel := false }, "ok")
+    else (st, "none")
+  | ["reopen", id, mode] =>
     let i := natOr id
     if !retainedDone st i then (st, "refused") else
     let rots := parseRots hint
     match Ckpt.run st.s [.crash, .open i rots] with
     | some s' =>
       let n := s'.db.mems.length - 1
-      ({ st with s := s', sp := Ckpt.stepSpec st.s st.sp (.open i rots), flushQ := n, compactQ := 0, held := false, heldId := none },
+      ({ st with s := s', sp := Ckpt.stepSpec st.s st.sp (.open i rots), dir := if mode == "fresh" then st.hdir.length + st.dir + 1 else st.dir, flushQ := n, compactQ := 0, held := false, heldId := none, heldDel := false },
        "opened n=" ++ toString n ++ " rots=" ++ showIds rots)
     | none => ({ st with bad := true }, "failed")
   | ["peek", id] =>
+    -- every handle the user holds may be tried, also after the database was reopened from another checkpoint
     let i := natOr id
-    if !retainedDone st i then (st, "refused") else
+    if !st.sp.handles.contains i || st.heldId == some i then (st, "refused") else
+    if !Ckpt.retainedDone st.s i && st.held then
+      -- the document write of the held save has not landed yet, the model has already applied it: for a checkpoint the
+      -- running instance does not list the two differ until `release`
+      (st, "unsettled") else
+    if !Ckpt.retainedDone st.s i && dirOf st i != st.dir then
+      -- its document lives in a directory the running instance does not write to (not modelled: one flat name space)
+      (st, "otherdir") else
     match Ckpt.step st.s (.open i []) with
     | some r => (st, withSpec (showScan8 (scan r.db [])) (showScan8 (specScan (specOf st i) [])))
-    | none => (st, "failed")
+    | none =>
+      -- D50: only a handle older than a checkpoint the database was reopened from may have lost its document entry
+      if st.sp.lost.contains i then (st, "failed #spec " ++ showScan8 (specScan (specOf st i) []) ++ " #kf D50")
+      else (st, "failed")
   | ["intact"] => (st, "ok")
   | _ => (st, "bad-op")
 
